@@ -246,7 +246,7 @@ func (tx *Tx) HasDataOutputs() bool {
 // This will consume an overflow error and simply return nil if the input
 // isn't found at the index.
 func (tx *Tx) InputIdx(i int) *Input {
-	if i > tx.InputCount()-1 {
+	if i < 0 || i > tx.InputCount()-1 {
 		return nil
 	}
 	return tx.Inputs[i]
@@ -257,7 +257,7 @@ func (tx *Tx) InputIdx(i int) *Input {
 // This will consume an overflow error and simply return nil if the output
 // isn't found at the index.
 func (tx *Tx) OutputIdx(i int) *Output {
-	if i > tx.OutputCount()-1 {
+	if i < 0 || i > tx.OutputCount()-1 {
 		return nil
 	}
 	return tx.Outputs[i]
